@@ -272,6 +272,33 @@ func (p *Prog) RepoFuncs() []*types.Func {
 	for f := range p.decls {
 		fs = append(fs, f)
 	}
-	sort.Slice(fs, func(i, j int) bool { return p.decls[fs[i]].Pos() < p.decls[fs[j]].Pos() })
+	// by file name and offset, not by token.Pos: packages are parsed concurrently, so the file
+	// bases in the FileSet (and with them the relative order of two files) vary from run to run
+	type key struct {
+		file string
+		off  int
+	}
+	ks := map[*types.Func]key{}
+	for _, f := range fs {
+		ps := p.Fset.Position(p.decls[f].Pos())
+		ks[f] = key{ps.Filename, ps.Offset}
+	}
+	sort.Slice(fs, func(i, j int) bool {
+		a, b := ks[fs[i]], ks[fs[j]]
+		if a.file != b.file {
+			return a.file < b.file
+		}
+		return a.off < b.off
+	})
 	return fs
+}
+
+// PosLess orders two positions by file name and offset.  token.Pos values of different files
+// are not comparable across runs: packages are parsed concurrently, so file bases vary.
+func (p *Prog) PosLess(a, b token.Pos) bool {
+	pa, pb := p.Fset.Position(a), p.Fset.Position(b)
+	if pa.Filename != pb.Filename {
+		return pa.Filename < pb.Filename
+	}
+	return pa.Offset < pb.Offset
 }
